@@ -185,6 +185,11 @@ func buildStreamFieldMappingConverter[I any]() func(input streamReader) streamRe
 				var i I
 				return i, err
 			}
+			if t == nil {
+				// I is an interface type and this chunk mapped nothing into it: the nil value of I
+				var i I
+				return i, nil
+			}
 			return t.(I), nil
 		}))
 	}
